@@ -36,6 +36,24 @@ pub fn to_lax(l: &Lax) -> LOH {
     f
 }
 
+/// the same diagram built through the public builder calls (new_node, new_edge, unify) instead
+/// of writing the public fields; the pending pairs are whatever `unify` records for them
+pub fn to_lax_api(l: &Lax) -> LOH {
+    let mut f = LOH::empty();
+    for &x in &l.d.nodes {
+        f.new_node(Ob(x));
+    }
+    for e in &l.d.edges {
+        f.new_edge(Op(e.label), Hyperedge { sources: ids(&e.src), targets: ids(&e.tgt) });
+    }
+    for &(a, b) in &l.q {
+        f.unify(NodeId(a), NodeId(b));
+    }
+    f.sources = ids(&l.d.s);
+    f.targets = ids(&l.d.t);
+    f
+}
+
 pub fn to_lax_d(d: &Diagram) -> LOH {
     to_lax(&Lax {
         d: d.clone(),
